@@ -7,6 +7,7 @@
 -/
 import Model.CoreClose
 import Model.Handshaker
+import Model.AcceptQ
 import Model.Proto.ReqClose
 import Model.Proto.RepClose
 import Model.Proto.CommonLemmas
@@ -524,5 +525,49 @@ theorem handshaker_never_sits_on_a_result (s : Handshaker.State) (hr : Handshake
 example :
     let s := Handshaker.run Handshaker.init [.start 1, .start 2, .start 3, .finish 1 true, .wait 7, .finish 2 false, .close, .start 4]
     s.closed = true ∧ s.started = [1, 2, 3, 4] ∧ s.handed = [1] ∧ s.shut = [2, 3, 4] := by decide
+
+/-! ### The accept queue of the WebSocket listener (ws, wss) -/
+
+/-- In every state the listener can reach — connections beginning and finishing their upgrade in any order relative to
+    Accept calls and Close, also finishing after Close — a closed listener keeps nothing: nothing is queued, nobody is
+    left waiting in Accept, and every connection that ever began is still being upgraded, was handed to a caller of
+    Accept, or is closed. -/
+theorem closed_listener_keeps_nothing (s : AcceptQ.State) (hr : AcceptQ.Reach s) (hc : s.closed = true) :
+    s.pending = [] ∧ s.waiters = [] ∧ ∀ c ∈ s.started, c ∈ s.upgrading ∨ c ∈ s.handed ∨ c ∈ s.shut := by
+  have inv := AcceptQ.reach_inv s hr
+  refine ⟨(inv.closedEmpty hc).1, (inv.closedEmpty hc).2, ?_⟩
+  intro c hcs
+  rcases inv.accounted c hcs with h | h | h | h
+  · exact Or.inl h
+  · rw [(inv.closedEmpty hc).1] at h; simp at h
+  · exact Or.inr (Or.inl h)
+  · exact Or.inr (Or.inr h)
+
+/-- … so once the upgrades that were in flight at Close have finished, every connection not handed out is closed -/
+theorem closed_listener_all_settled (s : AcceptQ.State) (hr : AcceptQ.Reach s) (hc : s.closed = true) (hu : s.upgrading = []) :
+    ∀ c ∈ s.started, c ∈ s.handed ∨ c ∈ s.shut := by
+  intro c hcs
+  rcases (closed_listener_keeps_nothing s hr hc).2.2 c hcs with h | h | h
+  · rw [hu] at h; simp at h
+  · exact Or.inl h
+  · exact Or.inr h
+
+/-- an upgrade that finishes after Close closes its connection (the step D22 was about) -/
+theorem finish_after_close_shuts (s : AcceptQ.State) (hr : AcceptQ.Reach s) (hc : s.closed = true) (c : Nat) (hu : c ∈ s.upgrading) :
+    c ∈ (AcceptQ.step s (.finish c)).1.shut ∧ (AcceptQ.step s (.finish c)).1.pending = [] := by
+  have hcu : s.upgrading.contains c = true := by simpa using hu
+  have hp := ((AcceptQ.reach_inv s hr).closedEmpty hc).1
+  simp only [AcceptQ.step, hcu, hc]
+  exact ⟨(AcceptQ.mem_addShut _ _ _).mpr (Or.inr rfl), hp⟩
+
+/-- Accept hands out live connections, each once; while the listener is open no Accept is parked with a connection queued -/
+theorem listener_hands_out_live_connections_once (s : AcceptQ.State) (hr : AcceptQ.Reach s) :
+    s.handed.Nodup ∧ (∀ c ∈ s.handed, c ∉ s.shut) ∧ (s.waiters = [] ∨ s.pending = []) :=
+  ⟨(AcceptQ.reach_inv s hr).handedNodup, (AcceptQ.reach_inv s hr).handedOpen, (AcceptQ.reach_inv s hr).quiet⟩
+
+/-- non-vacuity: one connection accepted, one queued at Close, one upgraded across Close, one arriving after Close -/
+example :
+    let s := AcceptQ.run AcceptQ.init [.begin 1, .finish 1, .accept 7, .begin 2, .finish 2, .begin 3, .close, .finish 3, .begin 4]
+    s.closed = true ∧ s.started = [1, 2, 3, 4] ∧ s.handed = [1] ∧ s.shut = [2, 3, 4] ∧ s.upgrading = [] := by decide
 
 end Props.C10
